@@ -700,6 +700,10 @@ class UnorderedCombiningPatternEncoder(PatternEncoderBase):
 
             # Check if all connections are repeated
             if all(n.rep for nodes in (src, tgt) for n in nodes):
+                # Taking all from the same target should be possible
+                if effective_settings.get_max_conn_parallel() < src[0].conns[0]:
+                    return False
+
                 if initialize:
                     self.with_replacement = True
                 return self.with_replacement
